@@ -167,6 +167,11 @@ def sensitivity(res, tier):
         json.dump({"alphabet": R2.FAMILIES["basic"], "maxlen": 2, "kinds": ["struct"], "attrs": ["none"]}, f)
     expect_violation("MC_BitAlloc.tla", "MC_BitAlloc_sens_floorSize.cfg", "Covers", "c03-sens-floor", env={"FAMILY": fj})
     n += 1
+    # straddle test with the offset taken modulo the type's size: visible only with align < size
+    with open(fj, "w") as f:
+        json.dump({"alphabet": R2.FAMILIES["underaligned"], "maxlen": 2, "kinds": ["struct"], "attrs": ["none"]}, f)
+    expect_violation("MC_BitAlloc.tla", "MC_BitAlloc_sens_moduloSize.cfg", "Agree", "c03-sens-modulo", env={"FAMILY": fj})
+    n += 1
     return n
 
 
@@ -289,6 +294,62 @@ def r3(res, tier, builds, agg):
         agg.add(key, {kk: vv for kk, vv in b.items() if kk != "v"})
     res.add(r3_bigendian_cases=n, r3_bigendian_mismatches=len(bad), r3_structs=len(decls),
             states=g["distinct"], transitions=g["generated"], traces_validated_against_impl=n)
+
+
+# ---------------------------------------------------------------------------
+# R4: i686 (long long: size 8, align 4) - T only, nothing is executed
+# ---------------------------------------------------------------------------
+
+def r4(res, tier, agg):
+    alpha = [R2.T("ullong_a4", 40), R2.T("llong_a4", 20), R2.T("ullong_a4", 9), R2.T("uint", 20), R2.T("uchar", 4),
+             R2.T("ullong_a4", 0, False), R2.T("int", 5, False)]
+    quick = tier == "quick"
+    recs, g = R2.generate("i686", alpha, 3 if quick else 4, ["none", "packed", "pack2", "pack4"])
+    rnd = random.Random(C.seed() * 131 + 11)
+    # one unit that starts the record: its byte offset in the Rust struct is 0 without compiling for i686
+    cand = [p for p in recs if len(p["units"]) == 1 and p["units"][0]["start"] == 0 and all(f["bw"] >= 0 for f in p["fields"])]
+    sel = R2.select(cand, 200 if quick else 1200, rnd, per_sig=2 if quick else 6)
+    decls = [("S%d" % i, p) for i, p in enumerate(sel)]
+    obs, parsed = R2.static_init_observe(decls, R2.I686_TARGET, R2.CTYPE_I686, "r4-i686")
+    if obs is None:
+        res.notes.append("bindgen failed for i686: %s" % json.dumps(parsed)[:300])
+        return
+    # non-vacuity: the constants that a straddle test modulo SIZE would generate must be rejected.  The probe
+    # is built from the machine's prediction (not from the observed bindings) with one field re-aligned.
+    probe, hit = None, None
+    for (n, p), o in zip(decls, obs):
+        if p["kind"] != "struct" or p["attr"] != "none":
+            continue
+        bfs = [{"i": x["i"], "unit": 1, "off": x["off"], "w": x["w"]} for x in p["units"][0]["bfs"] if x["named"]]
+        for x in bfs:
+            f = p["fields"][x["i"] - 1]
+            if f["ty"].endswith("_a4") and x["off"] % 64 + x["w"] > 64 and x["off"] % 32 != 0:
+                x["off"] = (x["off"] + 31) // 32 * 32
+                hit = (n, x["i"])
+                break
+        if hit:
+            probe = dict(o, r_bfs=bfs, r_units=[{"nth": 1, "off": 0, "size": 16}])
+            break
+    if not hit:
+        raise C.ToolError("i686 selection holds no long long bit-field that crosses an 8-byte boundary")
+    pv = trace_validate("r4-probe", [probe])[0]
+    if not any((v["id"], v["i"]) == hit and v["what"] == "offset" for v in pv):
+        raise C.ToolError("re-aligned i686 constant was not rejected by Trace_BitAlloc")
+    viol, drift, model, counts, tr = trace_validate("r4-i686", obs)
+    if model:
+        raise C.ToolError("CLayoutBits (long long as size 8 / align 4) disagrees with clang for i686: %s" % json.dumps(model[:3]))
+    dd = dict(decls)
+    for v in viol:
+        agg.add(t_key(v), {"via": "T (i686, clang static initialisers)", "decl": R2.render_decl(v["id"], dd[v["id"]], R2.CTYPE_I686),
+                           "field": "f%d" % v["i"], "what": v["what"], "c_bit_offset_or_needed_bits": v["want"],
+                           "generated_code_uses": v["got"], "getter": "_bitfield_%d get<%d,%d>" % (v["unit"], v["off"], v["w"])})
+    for dr in drift[:3]:
+        res.drift.append("i686 allocation shape differs from BitAlloc (%s, %s): predicted %s observed %s" %
+                         (dr["id"], dr["what"], json.dumps(dr["pred"])[:160], json.dumps(dr["obs"])[:160]))
+    res.add(r4_i686_structs=len(decls), r4_i686_bitfields=sum(len(o["r_bfs"]) for o in obs), r4_i686_violations=len(viol),
+            r4_i686_shape_diffs=len(drift), r4_realigned_constant_rejected=1,
+            states=g["distinct"] + tr["distinct"], transitions=g["generated"] + tr["generated"],
+            traces_validated_against_impl=len(decls))
 
 
 # ---------------------------------------------------------------------------
@@ -624,7 +685,10 @@ def run(res, tier):
         "usize = 32 is model-checked only (MC_BitUnit usize32); the sweep executes usize = 64",
         "CLayoutBits (x86_64 SysV/Itanium) is bound to clang 14 by T: every executed declaration's bit offsets and size "
         "must equal the spec's, else the run is a tool error",
-        "bit-fields wider than their type (C++), ms_struct, Objective-C and attribute-aligned bit-fields are outside the universe",
+        "under-aligned base types are typedefs with aligned(1|2|4) (R2, executed on x86_64) and long long on i686 (R4: T only, "
+        "bit offsets from clang's static initialisers, unit at byte 0 assumed, nothing executed)",
+        "bit-fields wider than their type (C++), ms_struct, Objective-C and bit-fields with an aligned attribute on the field "
+        "itself are outside the universe",
     ]
     C.build()
     builds = {}
@@ -668,6 +732,9 @@ def run(res, tier):
     t0 = time.time()
     r3(res, tier, builds, agg)
     C.log("c03: R3 big-endian cross-check %.0fs" % (time.time() - t0))
+    t0 = time.time()
+    r4(res, tier, agg)
+    C.log("c03: R4 i686 %.0fs" % (time.time() - t0))
     t0 = time.time()
     t2.join()
     C.log("c03: waited %.0fs more for R2" % (time.time() - t0))
